@@ -79,7 +79,31 @@ def modname_for(path):
     return "verif_kani_" + re.sub(r"[^A-Za-z0-9]", "_", rel[:-3])
 
 
+def lint_statics():
+    """Kani resolves a constant whose bytes equal the initial bytes of a static to that static
+    (allocations are interned by content): a harness that writes to `static mut X: bool = false`
+    silently changes constants of the code under test (DESIGN 9.4).  Every harness/model static
+    must therefore be wrapped in the uniquely tagged cell Uq<T>."""
+    bad = []
+    paths = glob.glob(os.path.join(HARNESS_DIR, "**", "*.rs"), recursive=True) + glob.glob(os.path.join(VERIF, "model", "*.rs"))
+    magics = {}
+    for path in paths:
+        for n, line in enumerate(open(path), 1):
+            m = re.match(r"\s*(?:pub(?:\(crate\))? )?static (?:mut )?(\w+)\s*:", line)
+            if m and not line.strip().startswith("//"):
+                mm = re.search(r"Uq<.*magic: (0x[0-9A-Fa-f]+)", line)
+                if not mm:
+                    bad.append("%s:%d %s (not wrapped in Uq)" % (os.path.relpath(path, VERIF), n, m.group(1)))
+                elif mm.group(1) in magics:
+                    bad.append("%s:%d %s (magic reused from %s)" % (os.path.relpath(path, VERIF), n, m.group(1), magics[mm.group(1)]))
+                else:
+                    magics[mm.group(1)] = m.group(1)
+    if bad:
+        raise SystemExit("harness statics without a unique tag (would alias constants under Kani): " + "; ".join(bad))
+
+
 def discover():
+    lint_statics()
     files, harnesses = [], []
     for path in sorted(glob.glob(os.path.join(HARNESS_DIR, "**", "*.rs"), recursive=True)):
         anchor, cfg, cur = None, None, None
